@@ -25,7 +25,7 @@ def gen_case(rng):
     pool = rng.choice(POOLS)
     ops = []
     for _ in range(rng.choice([1, 2, 3, 5, 8])):
-        ops.append({'kind': rng.choice(KINDS), 'behaviour': rng.choice(BEHAVIOURS), 'host': rng.choice(['a.test', 'a.test', 'b.test']),
+        ops.append({'kind': rng.choice(KINDS), 'behaviour': rng.choice(BEHAVIOURS), 'host': rng.choice(['a.test', 'a.test', 'b.test', 'd.test']),
                     'login': rng.random() < 0.3})
     return {'pool': pool, 'ops': ops, 'limit': rng.choice([1, 1, 2, 6]), 'seed': rng.randrange(1 << 30)}
 
@@ -103,7 +103,17 @@ def run_case(case, part):
         try:
             peer = Peer([])
             net.default_peer = peer
-            resolver = netsim.StaticResolver({'a.test': '127.0.4.1', 'b.test': '127.0.4.2', 'c.test': '127.0.4.3'})
+            resolver = netsim.StaticResolver({'a.test': '127.0.4.1', 'b.test': '127.0.4.2', 'c.test': '127.0.4.3',
+                                               # a host with an A and an AAAA record: both are tried at once, the faster one is used
+                                               'd.test': ['127.0.4.4', 'fd00::4']})
+            slow = {'family': rng.choice(['v6', 'v6', 'v4']), 'turns': rng.choice([0, 2, 12, 40])}
+
+            async def gate(host, port):
+                if (':' in str(host)) == (slow['family'] == 'v6'):
+                    for _ in range(slow['turns']):
+                        await asyncio.sleep(0)
+                await asyncio.sleep(0)
+            net.connect_gate = gate
             if case['pool'] == 'direct':
                 pool = ConnectionPool(resolver=resolver, max_host_count=case['limit'])
             else:
@@ -247,6 +257,18 @@ def run_case(case, part):
                 http_client.close()
             except Exception:
                 pass
+            # the pool is closed: every transport that was ever opened towards a server must have been closed from this
+            # side by now (one that the pool forgot while it was still open - an idle connection the server had hung up
+            # on, the slower of two dual-stack connections - is owned by nobody and can never be closed)
+            try:
+                pool.close()
+            except Exception as e:
+                result['pool_close_error'] = repr(e)
+            for _ in range(200):
+                await asyncio.sleep(0)
+            result['left_open'] = [{'id': c.id, 'address': '{}:{}'.format(c.host, c.port), 'server_hung_up': bool(c.peer_closed)}
+                                   for c in net.connections if not c.client_closed]
+            result['opened'] = len(net.connections)
         finally:
             net.uninstall()
     netsim.run(main(), timeout=120)
@@ -264,6 +286,13 @@ def run_case(case, part):
         part.violation('real-client-blocked-forever/{}/{}'.format(case['pool'], last['kind']),
                        {'outcomes': result['outcomes'], 'state': result.get('state'), 'ops': case['ops']}, replay)
         return
+    part.count('transports_opened', result.get('opened', 0))
+    if result.get('left_open'):
+        part.violation('transport-left-open-after-the-pool-was-closed/' + ('server-had-hung-up' if all(x['server_hung_up'] for x in result['left_open'])
+                                                                             else 'live-connection') + '/' + case['pool'],
+                       {'left_open': result['left_open'][:4], 'outcomes': result['outcomes'], 'ops': case['ops']}, replay)
+    elif 'left_open' in result:
+        part.count('all_transports_closed_after_pool_close')
     if result.get('acquire_returned_nothing'):
         part.violation('pool-acquire-returned-no-connection/' + case['pool'], {'state': result.get('state'), 'ops': case['ops']}, replay)
     if result.get('settle'):
